@@ -3,6 +3,8 @@
 use crate::runner::PartDyn;
 
 pub mod c01;
+pub mod c02;
+pub mod c03;
 
 pub struct PropDef {
     pub id: &'static str,
@@ -12,7 +14,7 @@ pub struct PropDef {
 }
 
 pub fn all() -> Vec<PropDef> {
-    vec![c01::def()]
+    vec![c01::def(), c02::def(), c03::def()]
 }
 
 pub fn find(id: &str) -> Option<PropDef> {
